@@ -33,6 +33,7 @@ func init() {
 		out["asmvars"] = asmVarFacts(repo)
 		out["lazyctors"] = lazyCtorFacts(repo)
 		out["observerwrites"] = observerWriteFacts(repo)
+		out["difields"] = diFacts(repo)
 		enc := json.NewEncoder(os.Stdout)
 		enc.SetIndent("", " ")
 		enc.Encode(out)
